@@ -20,9 +20,9 @@ use std::collections::{BTreeMap, BTreeSet};
 pub const META: PropMeta = PropMeta {
     id: "C16",
     level: "exploration",
-    rule: "cases = histories of 1..60 public builder calls over 5 probe paths and 4 substitute source paths: add_derives_for_all, add_attributes_for_all, add_derives_for / add_attributes_for x {specific, recursive}, TypeSubstitutes::{insert, insert_if_not_exists, extend} with valid arguments and with exactly one malformation per call (relative target, parenthesised generics on source or target, lifetime / path / nested-generic source argument, lifetime / tuple / array target argument), repeated and interleaved. Oracle: a sequential BTreeMap/BTreeSet model replayed over the same history: (a) the derive and attribute sets emitted on every item of a fixed probe registry (Top -> Mid -> Leaf, Other; Alone) must equal global + own path + recursive-from-ancestors, sorted and duplicate-free; (b) TypeSubstitutes::iter()/contains() must equal the model map (last insert/extend wins, insert_if_not_exists never replaces, key = path segments without generics); (c) each malformed call must be rejected with the documented error kind; (d) a rejected call must leave iter() unchanged. non-trivial = history with >= 1 rejected call and >= 1 overwrite; distinct by history hash.",
+    rule: "cases = histories of 1..60 public builder calls over 5 probe paths and 4 substitute source paths: add_derives_for_all, add_attributes_for_all, add_derives_for / add_attributes_for x {specific, recursive}, TypeSubstitutes::{insert, insert_if_not_exists, extend} with valid arguments and with exactly one malformation per call (relative target, parenthesised generics on source or target, lifetime / absolute path / multi-segment path / qualified-self / nested-generic source argument, empty source path, empty target path, lifetime / tuple / array target argument), repeated and interleaved. Oracle: a sequential BTreeMap/BTreeSet model replayed over the same history: (a) the derive and attribute sets emitted on every item of a fixed probe registry (Top -> Mid -> Leaf, Other; Alone) must equal global + own path + recursive-from-ancestors, sorted and duplicate-free; (b) TypeSubstitutes::iter()/contains() must equal the model map (last insert/extend wins, insert_if_not_exists never replaces, key = path segments without generics); (c) each malformed call must be rejected with the documented error kind; (d) a rejected call must leave iter() unchanged. non-trivial = history with >= 1 rejected call and >= 1 overwrite; distinct by history hash.",
     assumptions: &["extend is modelled as sequential inserts that stop at the first rejected element"],
-    required_counters: &["calls[insert]", "calls[insert_if_not_exists]", "calls[extend]", "calls[add_derives_for]", "rejected[ExpectedAbsolutePath]", "rejected[ExpectedAngleBracketGenerics]", "rejected[InvalidFromType]", "rejected[InvalidToType]", "overwrites", "insert_if_not_exists_kept_old"],
+    required_counters: &["calls[insert]", "calls[insert_if_not_exists]", "calls[extend]", "calls[add_derives_for]", "rejected[ExpectedAbsolutePath]", "rejected[ExpectedAngleBracketGenerics]", "rejected[InvalidFromType]", "rejected[InvalidToType]", "rejected[EmptySubstitutePath]", "overwrites", "insert_if_not_exists_kept_old"],
     floor: (1500, 50_000),
     shards: (8, 16),
 };
@@ -73,7 +73,11 @@ fn ancestors_or_self(path: &str) -> Vec<&'static str> {
 }
 
 fn malformed<R: Rng>(rng: &mut R, src: &str, i: usize) -> (String, String, &'static str) {
-    match rng.gen_range(0..9) {
+    match rng.gen_range(0..13) {
+        9 => (format!("{src}<a::B>"), format!("::ext::T{i}"), "InvalidFromType"),
+        10 => (format!("{src}<<A as Tr>::X>"), format!("::ext::T{i}"), "InvalidFromType"),
+        11 => ("<empty>".to_string(), format!("::ext::T{i}"), "EmptySubstitutePath"),
+        12 => (src.to_string(), "<::empty>".to_string(), "EmptySubstitutePath"),
         0 => (src.to_string(), format!("ext::T{i}"), "ExpectedAbsolutePath"),
         1 => (format!("{src}(A)"), format!("::ext::T{i}"), "ExpectedAngleBracketGenerics"),
         2 => (src.to_string(), format!("::ext::T{i}(A)"), "ExpectedAngleBracketGenerics"),
@@ -157,6 +161,9 @@ fn model_pair(src: &str, target: &str) -> Result<(Vec<String>, String), &'static
         return Err("ExpectedAbsolutePath");
     }
     let sp = p(src);
+    if sp.segments.is_empty() || tp.segments.is_empty() {
+        return Err("EmptySubstitutePath");
+    }
     let args_of = |path: &syn::Path| path.segments.last().map(|s| s.arguments.clone()).unwrap_or(syn::PathArguments::None);
     match args_of(&sp) {
         syn::PathArguments::Parenthesized(_) => return Err("ExpectedAngleBracketGenerics"),
